@@ -1190,7 +1190,72 @@ func c09FailingBody(c *C) {
 	c.Nontrivial(fmt.Sprintf("failbody:%s:%d:%s", d.name, failK, mods))
 }
 
+// c09ManyIterations: `for` renders its body once per element - for 1001-1600 elements as for three, whatever the body
+// is. The body is one construct of the engine (include, computed include, ssi, block, macro call, imported macro call,
+// filter tag, with, set, cycle, ifchanged, firstof, widthratio, spaceless, autoescape, templatetag, nested loop, if
+// chain); its rendering for one element is taken from a three-element run of the same template.
+func c09ManyIterations(c *C) {
+	r := c.R
+	bodies := []struct{ name, body string }{
+		{"static include", `{% include "/row.tpl" %}`}, {"computed-name include", `{% include rn %}`}, {"include with pairs", `{% include "/row.tpl" with k=i only %}`},
+		{"ssi parsed", `{% ssi "/row.tpl" parsed %}`}, {"plain ssi", `{% ssi "/row.tpl" %}`}, {"empty block", `{% block hook %}{% endblock %}x`}, {"block", `{% block cell %}c{{ i }}{% endblock %}`},
+		{"macro call", `{{ cellm(i) }}`}, {"imported macro call", `{{ libm(i) }}`}, {"macro calling a macro", `{{ outerm(i) }}`}, {"filter tag", `{% filter upper|lower %}f{{ i }}{% endfilter %}`},
+		{"with", `{% with a=i b=i %}{{ a }}{{ b }}{% endwith %}`}, {"set", `{% set q = i %}{{ q }}`}, {"firstof", `{% firstof nothing i "z" %}`}, {"widthratio", `{% widthratio i 1600 100 %}`},
+		{"spaceless", `{% spaceless %}<a> <b>{{ i }}</b> </a>{% endspaceless %}`}, {"autoescape", `{% autoescape off %}{{ i }}{% endautoescape %}`}, {"templatetag", `{% templatetag openblock %}`},
+		{"nested loop", `{% for j in two %}{{ j }}{% endfor %}`}, {"if chain", `{% if i < 0 %}n{% elif i == 0 %}z{% else %}p{% endif %}`}, {"ifequal", `{% ifequal i 0 %}z{% else %}n{% endifequal %}`},
+		{"failing filter caught by default", `{{ nothing|default:i }}`}, {"comment and verbatim", `{# c #}{% comment %}x{% endcomment %}{% verbatim %}{{ v }}{% endverbatim %}`},
+	}
+	b := bodies[r.Intn(len(bodies))]
+	n := 1001 + r.Intn(600)
+	main := `{% import "/lib.tpl" libm %}{% macro cellm(a) %}m{{ a }}{% endmacro %}{% macro outerm(a) %}o{{ cellm(a) }}{% endmacro %}{% for i in rows %}` + b.body + `;{% endfor %}`
+	files := map[string]string{"/row.tpl": "r{{ i }}{{ k }}", "/lib.tpl": "{% macro libm(a) export %}l{{ a }}{% endmacro %}", "/main.tpl": main}
+	set, _ := newSet(files)
+	tpl, err := set.FromFile("/main.tpl")
+	if err != nil {
+		c.Fail("reference-mismatch", D{"body": b.name, "main": main, "compile_err": err.Error()})
+		return
+	}
+	render := func(rows []int, salt uint64) (string, error) {
+		return execSpread(tpl, pongo2.Context{"rows": rows, "rn": "/row.tpl", "two": []int{1, 2}}, salt)
+	}
+	// the rendering of one element: from runs over one element each (a fresh execution per element)
+	rows := make([]int, n)
+	var want strings.Builder
+	cache := map[int]string{}
+	for k := range rows {
+		rows[k] = k % 7
+		if _, ok := cache[rows[k]]; !ok {
+			one, oerr := render([]int{rows[k]}, 0)
+			if oerr != nil {
+				c.Fail("reference-mismatch", D{"body": b.name, "main": main, "error": oerr.Error(), "why": "a loop over ONE element failed"})
+				return
+			}
+			cache[rows[k]] = one
+		}
+		want.WriteString(cache[rows[k]])
+	}
+	for run := 0; run < 2; run++ {
+		out, xerr := render(rows, uint64(c.Idx+run))
+		c.Eval(1)
+		if xerr != nil || out != want.String() {
+			first := 0
+			for first < len(out) && first < want.Len() && out[first] == want.String()[first] {
+				first++
+			}
+			c.Fail("reference-mismatch", D{"body": b.name, "main": main, "elements": n, "output_len": len(out), "expected_len": want.Len(), "first_difference_at": first, "error": errStr(xerr), "execution": run + 1,
+				"why": "the body is rendered once per element: the rendering over n elements is the concatenation of the renderings over one element each"})
+			return
+		}
+	}
+	c.Cover("many_iterations:" + b.name)
+	c.Nontrivial(fmt.Sprintf("manyiter:%s:%d", b.name, n))
+}
+
 func c09Run(c *C) {
+	if c.Idx%200 == 77 {
+		c09ManyIterations(c)
+		return
+	}
 	if c.Idx%50 == 31 {
 		c09FailingBody(c)
 		return
